@@ -239,7 +239,7 @@ pub fn run(ctx: &mut Ctx) {
     let deep = ctx.tier.thorough();
     let thorough = true;
     let cases = crate::gram::generate(if deep { 3 } else { 2 });
-    ctx.rule = "(a) every C01 program in canonical spelling, every base document x every trivia menu member at every gap at once and at each single gap (all members), OSCAT description headers with 1-4 byte characters, texts with an invalid character; (b) every C01 program that parses: identifier occurrences vs Id spans; (c) every single-token deletion / duplication / neighbour swap of every base document and every C01 program (quick: of every program with at most one deviation and every third with two; thorough: every program with at most two and every 20th with three) : labels of all diagnostics; (d) every single-fault world of C02 (deviation bound 1) in five spellings (one line per declaration, one lexeme per line with LF and CRLF, a non-ASCII comment before every lexeme, two documents) opened in the real server: every published range must be the label's line / UTF-16 column; distinct = distinct source text".into();
+    ctx.rule = "(a) every C01 program in canonical spelling, every base document x every trivia menu member at every gap at once and at each single gap (all members), OSCAT description headers with 1-4 byte characters, texts with an invalid character, every prefix of every base document and of every program with at most one deviation that ends after a lexeme (as it is, with a line end, with a comment); (b) every C01 program that parses: identifier occurrences vs Id spans; (c) every single-token deletion / duplication / neighbour swap of every base document and every C01 program (quick: of every program with at most one deviation and every third with two; thorough: every program with at most two and every 20th with three) : labels of all diagnostics; (d) every single-fault world of C02 (deviation bound 1) in five spellings (one line per declaration, one lexeme per line with LF and CRLF, a non-ASCII comment before every lexeme, two documents) opened in the real server: every published range must be the label's line / UTF-16 column; distinct = distinct source text".into();
     ctx.assumptions.push("line = number of LF before the span start; column accepted in bytes, chars or UTF-16 units as long as one unit fits every token of the document".into());
     ctx.assumptions.push("inside a blanked OSCAT header token text may be blanks instead of the original characters, but must have the same byte length".into());
 
@@ -257,6 +257,23 @@ pub fn run(ctx: &mut Ctx) {
                 m.remove(i + 1);
                 texts.push(("end-if-without-semicolon".to_string(), spell(&m).text));
                 break;
+            }
+        }
+    }
+    // truncated texts: every prefix that ends after a lexeme, as it is, followed by a line end, and followed
+    // by a comment (what an editor holds while the text is being typed; the end of input is a position too)
+    {
+        let mut hosts: Vec<Vec<Lexeme>> = corpus::docs().into_iter().map(|d| d.lx.v).collect();
+        hosts.extend(cases.iter().filter(|c| c.labels.len() <= 1).map(|c| c.lx.v.clone()));
+        for lx in hosts {
+            for k in 1..lx.len() {
+                let t = spell(&lx[..k]).text;
+                texts.push(("truncated".to_string(), t.clone()));
+                texts.push(("truncated+line-end".to_string(), format!("{}\n", t)));
+                if lx[k - 1].text.eq_ignore_ascii_case("END_IF") || k % 5 == 0 {
+                    texts.push(("truncated+comment".to_string(), format!("{} (* c *)\n", t)));
+                    texts.push(("truncated+crlf".to_string(), format!("{}\r\n", t)));
+                }
             }
         }
     }
